@@ -252,9 +252,19 @@ func c03Apply(f *refage.File, owner []int, e c03Edit, seed uint64) (hdr []byte, 
 				}
 			}
 		}
+	case "delete-all":
+		// every stanza removed: a header that names no recipient at all
+		for i := range owner {
+			touch(i)
+		}
+		h.Stanzas = nil
 	case "mac-only":
 	}
 	switch e.MAC {
+	case "emptykey":
+		h.MAC = refage.HeaderMAC([]byte{}, &h)
+	case "zerokey":
+		h.MAC = refage.HeaderMAC(make([]byte, 16), &h)
 	case "random":
 		h.MAC = hx.PRG(seed+11, 32)
 	case "wrongkey":
@@ -404,9 +414,9 @@ func c03Gen(t *rapid.T) c03Case {
 	if rapid.Bool().Draw(t, "moreIdentities") {
 		c.ForeignBefore, c.ForeignAfter = rapid.IntRange(0, 2).Draw(t, "fb"), rapid.IntRange(0, 3).Draw(t, "fa")
 	}
-	kinds := []string{"type", "type-swap", "arg-char", "arg-add", "arg-del", "body-flip", "body-len", "body-swap", "body-strip", "body-pad", "insert-grease", "insert-attacker", "delete", "dup", "permute", "mac-only", "raw-flip", "raw-insert", "raw-delete", "rewrap", "rewrap", "none"}
+	kinds := []string{"type", "type-swap", "arg-char", "arg-add", "arg-del", "body-flip", "body-len", "body-swap", "body-strip", "body-pad", "delete-all", "insert-grease", "insert-attacker", "delete", "dup", "permute", "mac-only", "raw-flip", "raw-insert", "raw-delete", "rewrap", "rewrap", "none"}
 	e := c03Edit{Kind: rapid.SampledFrom(kinds).Draw(t, "edit"), J: rapid.IntRange(0, 11).Draw(t, "j"), K: rapid.IntRange(0, 11).Draw(t, "k"), N: rapid.IntRange(0, 300).Draw(t, "n")}
-	e.MAC = rapid.SampledFrom([]string{"keep", "keep", "random", "wrongkey", "truekey"}).Draw(t, "mac")
+	e.MAC = rapid.SampledFrom([]string{"keep", "keep", "random", "wrongkey", "truekey", "emptykey", "zerokey"}).Draw(t, "mac")
 	switch e.Kind {
 	case "mac-only":
 		e.MAC = rapid.SampledFrom([]string{"random", "wrongkey"}).Draw(t, "mac2")
@@ -527,6 +537,19 @@ func TestC03(t *testing.T) {
 			}
 		})
 		s.St.Exhaust(fmt.Sprintf("all %d! orders of a %d-stanza header, with the original MAC and re-MACed under the true key", k, k), int64(2*n))
+	}, check)
+	// all stanzas removed, the MAC left, replaced, or made under a key anybody can guess
+	pbt.Each(s, "edits-exhaustive", func(yield func(c03Case)) {
+		n := 0
+		for mi, recs := range mixes {
+			for _, mac := range []string{"keep", "random", "wrongkey", "emptykey", "zerokey"} {
+				if s.Mine(n) {
+					yield(c03Case{Recs: recs, Seed: 5, PlainLen: 10, Edit: c03Edit{Kind: "delete-all", MAC: mac}, ForeignBefore: mi % 2})
+				}
+				n++
+			}
+		}
+		s.St.Exhaust("every recipient mix with all stanzas removed x 5 ways of making the MAC (kept, random, attacker key, empty key, zero key)", int64(n))
 	}, check)
 	// stanza bodies that begin with a zero byte (for ssh-rsa: a ciphertext that is numerically short), stripped and padded
 	pbt.Each(s, "edits-exhaustive", func(yield func(c03Case)) {
